@@ -66,6 +66,63 @@ Tour ==
          [a |-> "Ack", ca |-> 1, cb |-> 2], [a |-> "Confirm", cb |-> 2], T("O1", "O1", one, "long"),
          [a |-> "Recv", ca |-> 1, seq |-> 1], [a |-> "Recv", ca |-> 1, seq |-> 1] >>]
 
+(***************************************************************************)
+(* Canonical schedules, executed in every run of every tier.               *)
+(***************************************************************************)
+Reg_(s, o, r, e) == [a |-> "Register", signer |-> s, owner |-> o, order |-> r, enc |-> e]
+Ini_(s, o, r, e) == [a |-> "OpenInit", signer |-> s, owner |-> o, order |-> r, enc |-> e, cpport |-> "icahost"]
+Tx_(o, l, t)     == [a |-> "SendTx", signer |-> o, owner |-> o, msgs |-> l, to |-> t]
+Rcv_(ca, seq)    == [a |-> "Recv", ca |-> ca, seq |-> seq]
+Try_(n)          == [a |-> "Try", ca |-> n]
+Ack_(n, m)       == [a |-> "Ack", ca |-> n, cb |-> m]
+Conf_(m)         == [a |-> "Confirm", cb |-> m]
+RECURSIVE Cat(_)
+Cat(ss) == IF ss = <<>> THEN <<>> ELSE Head(ss) \o Cat(Tail(ss))
+
+\* Allow-list boundary cases: every kind of allow list (also the near-miss entries: prefixes, package patterns, extensions of
+\* the type URLs in use) against message lists signed by the interchain account itself, so that the allow list alone decides.
+AllowCaseSeq == SetToSeq({ <<aw, l>> : aw \in {"nearmiss", "starplus", "empty", "specific"},
+                                       l \in { <<M("send", "self")>>, <<M("delegate", "self")>>, <<M("setwd", "self")>>,
+                                               <<M("send", "self"), M("delegate", "self")>> } })
+AllowCases ==
+    [kind |-> "ICA", cfg |-> "allowcases", acts |->
+        SubSeq(Prefix("star"), 1, 4) \o
+        Cat([jj \in 1..Len(AllowCaseSeq) |-> << [a |-> "SetAllow", allow |-> AllowCaseSeq[jj][1]], Tx_("O1", AllowCaseSeq[jj][2], "long"), Rcv_(0, jj) >>])]
+
+\* Re-opening: an ORDERED channel with encoding e1 is closed by a timeout; then every initialising message that does NOT
+\* match it (other ordering, other encoding, the empty version string where the closed channel had non-default metadata; by
+\* the owner through MsgRegisterInterchainAccount and by a stranger through MsgChannelOpenInit) is submitted, each followed
+\* by the relays that would complete the handshake of the channel it would create; at the end a matching one is completed.
+ReopenAttempts(e1, match) ==
+    SetToSeq({ x \in { <<s, r2, e2>> : s \in {"O1", "X"}, r2 \in Orders, e2 \in EncIn } : (<<x[2], EncOf(x[3])>> = <<"ORDERED", e1>>) = match })
+ReopenCase(e1, last) ==
+    [kind |-> "ICA", cfg |-> "reopen", acts |->
+        << Reg_("O1", "O1", "ORDERED", e1), Try_(0), Ack_(0, 0), Conf_(0), Tx_("O1", <<M("send", "self")>>, "short"), [a |-> "Wait"],
+           [a |-> "Timeout", ca |-> 0, seq |-> 1], [a |-> "CloseConfirm", cb |-> 0] >> \o
+        Cat([jj \in 1..Len(ReopenAttempts(e1, FALSE)) |->
+               LET x == ReopenAttempts(e1, FALSE)[jj] IN
+               << IF x[1] = "O1" THEN Reg_(x[1], "O1", x[2], x[3]) ELSE Ini_(x[1], "O1", x[2], x[3]), Try_(1), Ack_(1, 1) >>]) \o
+        << (IF last[1] = "O1" THEN Reg_(last[1], "O1", last[2], last[3]) ELSE Ini_(last[1], "O1", last[2], last[3])),
+           Try_(1), Ack_(1, 1), Conf_(1), Tx_("O1", <<M("send", "self"), M("delegate", "self")>>, "long"), Rcv_(1, 1) >>]
+ReopenCases == << ReopenCase("proto3", <<"O1", "ORDERED", "default">>), ReopenCase("proto3json", <<"X", "ORDERED", "proto3json">>) >>
+
+\* Crossed world (the harness builds it for cfg "xconn"): both slots are the SAME owner account, i.e. the same controller
+\* port, on two connections with crossed identifiers (slot O1: A connection-0 <-> B connection-1, slot O2: A connection-1 <->
+\* B connection-0).  "peer" is then the account registered for the same port on the other connection.  Signers are the
+\* slot's own account throughout (in this world the two slots share it).
+XLists == << <<M("send", "self")>>, <<M("send", "peer")>>, <<M("send", "self"), M("send", "peer")>>, <<M("delegate", "self"), M("setwd", "self")>>,
+             <<M("send", "other")>>, <<M("delegate", "peer")>>, <<M("send", "self"), M("fail", "self")>> >>
+XConn ==
+    [kind |-> "ICA", cfg |-> "xconn", acts |->
+        << Reg_("O1", "O1", "UNORDERED", "default"), Try_(0), Ack_(0, 0), Conf_(0),
+           Reg_("O2", "O2", "ORDERED", "proto3json"), Try_(1), Ack_(1, 1), Conf_(1), Reg_("O2", "O2", "ORDERED", "proto3json") >> \o
+        Cat([jj \in 1..Len(XLists) |-> << Tx_("O1", XLists[jj], "long"), Rcv_(0, jj), Tx_("O2", XLists[jj], "long"), Rcv_(1, jj) >>]) \o
+        << Tx_("O2", <<M("send", "self")>>, "short"), [a |-> "Wait"], [a |-> "Timeout", ca |-> 1, seq |-> Len(XLists) + 1],
+           [a |-> "CloseConfirm", cb |-> 1], Reg_("O2", "O2", "UNORDERED", "proto3json"), Reg_("O2", "O2", "ORDERED", "proto3json"),
+           Try_(2), Ack_(2, 2), Conf_(2), Tx_("O2", <<M("send", "self"), M("send", "peer")>>, "long"), Rcv_(2, 1),
+           Tx_("O2", <<M("send", "self")>>, "long"), Rcv_(2, 2), Tx_("O1", <<M("setwd", "self")>>, "long"), Rcv_(0, Len(XLists) + 1) >>]
+
+
 \* The enumeration is unrolled by TLC's own next-state relation (one case per step, one behaviour per allow list and chunk).
 VARIABLES S, acts, i, al, k, cases
 
@@ -88,5 +145,8 @@ Spec == Init /\ [][Next]_<<S, acts, i, al, k, cases>>
 
 ASSUME JsonSerialize(OutDir \o "/probe.json", Probe)
 ASSUME JsonSerialize(OutDir \o "/tour.json", Tour)
+ASSUME JsonSerialize(OutDir \o "/allowcases.json", AllowCases)
+ASSUME \A jj \in DOMAIN ReopenCases : JsonSerialize(OutDir \o "/reopen_" \o ToString(jj) \o ".json", ReopenCases[jj])
+ASSUME JsonSerialize(OutDir \o "/xconn.json", XConn)
 ASSUME PrintT(<<"ENUMERATED", Cardinality(Lists)>>)
 =============================================================================
